@@ -21,7 +21,7 @@ def _filter_dead_code(nodes: Iterable[ast.stmt]) -> list[ast.stmt]:
     return new_nodes
 
 
-def _needs_eq_operator(arg: ast.expr) -> bool:
+def _is_non_singleton_literal(arg: ast.expr) -> bool:
     return isinstance(arg, ast.Constant) and all(
         arg.value is not v for v in (True, False, None, ...)
     )
@@ -86,18 +86,15 @@ def _optimize_operator_call_attr(  # pylint: disable=too-many-return-statements
             assert len(node.args) == 2
             return ast.Compare(arg1, [compareop()], [arg2])
 
-        isop = {
-            "is_": (ast.Is, ast.Eq),
-            "is_not": (ast.IsNot, ast.NotEq),
-        }.get(fn.attr)
+        isop = {"is_": ast.Is, "is_not": ast.IsNot}.get(fn.attr)
         if isop is not None:
-            isoper, eqoper = isop
             arg1, arg2 = node.args
             assert len(node.args) == 2
-            oper = (
-                eqoper if any(_needs_eq_operator(arg) for arg in node.args) else isoper
-            )
-            return ast.Compare(arg1, [oper()], [arg2])
+            # Python warns about `is` with a literal operand; comparing with `==` instead
+            # would change the meaning (1.0 == 1), so such calls are left as they are
+            if any(_is_non_singleton_literal(arg) for arg in node.args):
+                return node
+            return ast.Compare(arg1, [isop()], [arg2])
 
         if fn.attr == "contains":
             arg1, arg2 = node.args
